@@ -50,7 +50,7 @@ Lemma frame_region2 c s : frame s (region2 c s) /\ inflight (region2 c s) = infl
   /\ exc (region2 c s) = exc s.
 Proof.
   unfold region2. destruct (current s =? started s).
-  - destruct (exc s), (ff c); apply frame_fut_set.
+  - destruct (exc s) eqn:E, (ff c); rewrite <- ?E; apply frame_fut_set.
   - repeat split; try reflexivity; mono.
 Qed.
 
@@ -146,7 +146,7 @@ Proof. repeat split. Qed.
 
 Lemma finish_list_proj c s : inflight (finish_list c s) = inflight s /\ fut (finish_list c s) = fut s
   /\ fut_err (finish_list c s) = fut_err s /\ exc (finish_list c s) = exc s.
-Proof. unfold finish_list. destruct (exc s), (ff c); repeat split. Qed.
+Proof. unfold finish_list. destruct (exc s) eqn:E, (ff c); repeat split; cbn; congruence. Qed.
 
 Lemma results_list_proj c s : inflight (results_list c s) = inflight s /\ fut (results_list c s) = fut s
   /\ fut_err (results_list c s) = fut_err s /\ exc (results_list c s) = exc s.
@@ -161,37 +161,26 @@ Proof.
   destruct (ff c && negb ok); repeat split.
 Qed.
 
+Ltac fin := repeat match goal with H : _ /\ _ |- _ => destruct H | H : frame _ _ |- _ => destruct H end;
+  repeat split; cbn; mono; try lia.
+
 Lemma main_step_proj c s :
   (pc s <> MInit -> inflight (main_step c s) = inflight s)
   /\ fut_mono (fut s) (fut (main_step c s)) /\ fut_err (main_step c s) = fut_err s /\ exc_mono (exc s) (exc (main_step c s))
   /\ (pc s = MInit -> length (inflight (main_step c s)) <= conc c + length (inflight s)).
 Proof.
   unfold main_step. destruct (pc s) eqn:P.
-  - destruct (start_loop_frame c (conc c) s) as [[_ Ff Fe Fx _ _] L].
-    repeat split; cbn; try assumption. congruence.
-  - destruct (var c); [destruct (results_list_proj c s) as (A & B & C & D) | destruct (results_gen_proj c s) as (A & B & C & D)
-                      | destruct (results_list_proj c s) as (A & B & C & D)];
-      repeat split; try congruence; try (intros _; assumption); try (intros ?; congruence); intros e H; rewrite D; exact H.
-  - destruct (notified s); [|repeat split; try congruence; try (intros ? ; reflexivity); intros e H; exact H].
+  - pose proof (start_loop_frame c (conc c) s). fin.
+  - destruct (var c); [pose proof (results_list_proj c s) | pose proof (results_gen_proj c s) | pose proof (results_list_proj c s)]; fin.
+  - destruct (notified s); [|fin].
     destruct (var c).
-    + destruct (exc s) eqn:E, (ff c); try (destruct (results_list_proj c s) as (A & B & C & D));
-        repeat split; cbn; try congruence; try (intros _; assumption); try (intros ?; congruence);
-        try (intros e' H; rewrite D; congruence); try (intros e' H; congruence).
-    + destruct (results_gen_proj c s) as (A & B & C & D);
-        repeat split; try congruence; try (intros _; assumption); try (intros ?; congruence); intros e H; rewrite D; exact H.
-    + destruct (exc s) eqn:E, (ff c); try (destruct (results_list_proj c s) as (A & B & C & D));
-        repeat split; cbn; try congruence; try (intros _; assumption); try (intros ?; congruence);
-        try (intros e' H; rewrite D; congruence); try (intros e' H; congruence).
-  - destruct (results_gen_proj c (bump_current s)) as (A & B & C & D).
-    repeat split; try congruence; try (intros _; exact A); try (intros ?; rewrite B; reflexivity); try exact C.
-    intros e H. rewrite D. exact H.
-  - destruct (var c); try (repeat split; try congruence; try (intros ?; reflexivity); intros e H; exact H).
-    destruct o.
-    + destruct (frame_fut_set s (FResult l)) as ([_ Ff Fe Fx _ _] & I & _).
-      repeat split; cbn; try congruence; try (intros _; exact I); try assumption.
-    + destruct (frame_fut_set s (FExc idx)) as ([_ Ff Fe Fx _ _] & I & _).
-      repeat split; cbn; try congruence; try (intros _; exact I); try assumption.
-  - repeat split; try congruence; try (intros ?; reflexivity); intros e H; exact H.
+    + destruct (exc s) eqn:E, (ff c); try (pose proof (results_list_proj c s)); fin.
+    + pose proof (results_gen_proj c s); fin.
+    + destruct (exc s) eqn:E, (ff c); try (pose proof (results_list_proj c s)); fin.
+  - pose proof (results_gen_proj c (bump_current s)) as H. unfold bump_current, set_core in *. cbn in H. fin.
+  - destruct (var c); [fin | fin |].
+    destruct o; [pose proof (frame_fut_set s (FResult l)) | pose proof (frame_fut_set s (FExc idx))]; fin.
+  - fin.
 Qed.
 
 Lemma mem_remove_length i l : mem i l = true -> S (length (remove_first i l)) = length l.
@@ -259,12 +248,12 @@ Lemma step_mono c s o : fut_mono (fut s) (fut (step c s o)) /\ fut_err (step c s
 Proof.
   destruct o; cbn [step].
   - destruct (main_step_proj c s) as (_ & A & B & C & _). auto.
-  - destruct (mem i (inflight s)); [|repeat split; intros ? H; auto].
+  - destruct (mem i (inflight s)); [|repeat split; mono].
     set (s0 := set_core s (rest s) (started s) (current s) (results s) (exc s) (remove_first i (inflight s))).
     destruct (put_result_frame c (exec_next_top c) 0 s0 i (later_ok c i)) as [[_ Ff Fe Fx _ _] _].
     { intros d x. apply exec_next_ok. }
     destruct (var c); repeat split; cbn; assumption.
-  - destruct (mem i (pend2 s)); [|repeat split; intros ? H; auto].
+  - destruct (mem i (pend2 s)); [|repeat split; mono].
     destruct (frame_region2 c s) as ([_ Ff Fe Fx _ _] & _). repeat split; cbn; assumption.
 Qed.
 
@@ -276,9 +265,9 @@ Proof. unfold run. apply fold_left_app. Qed.
 
 Lemma fold_mono c : forall ops s, fut_mono (fut s) (fut (fold_left (step c) ops s)) /\ exc_mono (exc s) (exc (fold_left (step c) ops s)).
 Proof.
-  induction ops as [|o ops IH]; intros s; cbn; [split; intros ? H; auto|].
+  induction ops as [|o ops IH]; intros s; cbn; [split; mono|].
   destruct (step_mono c s o) as (A & _ & C). destruct (IH (step c s o)) as [A' C'].
-  split.
+  unfold fut_mono, exc_mono in *. split.
   - intros H. rewrite (A' ltac:(rewrite (A H); exact H)). apply A, H.
   - intros e H. apply C', C, H.
 Qed.
@@ -301,7 +290,7 @@ Proof.
       repeat (match goal with |- context [if ?b then _ else _] => destruct b | |- context [match ?x with _ => _ end] => destruct x end);
       cbn; discriminate.
     + destruct (var c); try congruence. intros _. cbn. unfold fut_set. destruct o0; destruct (fut s) eqn:F; cbn; congruence.
-    + intros H. apply (IH o1). exact P.
+    + intros _. eapply IH. reflexivity.
   - destruct (mem i (inflight s)); [|apply IH].
     set (s0 := set_core s (rest s) (started s) (current s) (results s) (exc s) (remove_first i (inflight s))).
     destruct (put_result_frame c (exec_next_top c) 0 s0 i (later_ok c i)) as [[Fp Ff _ _ _ _] _].
@@ -312,3 +301,6 @@ Proof.
   - destruct (mem i (pend2 s)); [|apply IH].
     destruct (frame_region2 c s) as ([Fp Ff _ _ _ _] & _). cbn. intros H. rewrite Fp in H. specialize (IH o H). rewrite Ff; assumption.
 Qed.
+
+Lemma filter_len_le {A} (f : A -> bool) (l : list A) : length (filter f l) <= length l.
+Proof. induction l as [|x l IH]; cbn; [lia|]. destruct (f x); cbn; lia. Qed.
